@@ -1,6 +1,7 @@
 package band
 
 import (
+	"errors"
 	"fmt"
 	"time"
 
@@ -42,6 +43,10 @@ func (b *as923Band) GetPingSlotFrequency(lorawan.DevAddr, time.Duration) (uint32
 }
 
 func (b *as923Band) GetRX1ChannelIndexForUplinkChannelIndex(uplinkChannel int) (int, error) {
+	if uplinkChannel < 0 {
+		return 0, errors.New("lorawan/band: invalid channel")
+	}
+
 	return uplinkChannel, nil
 }
 
